@@ -1,13 +1,131 @@
 import Cfi.Files
 import Spec.C12
-/-! C18 — property theorems (termination / element bound; being extended). -/
-namespace Props.C18
-open Cfi
+import Proofs.Accounting
+import Props.C04
+import Props.C12
+import Proofs.BlockLoop
+/-!
+C18 — reading terminates: every step consumes input.
 
-/-- `readline` on a stream with unread input consumes at least one character -/
-theorem lineOf_ne_nil {α} [BEq α] (nl : α) (s : List α) (h : s ≠ []) : Stream.lineOf nl s ≠ [] := by
-  cases s with
-  | nil => exact absurd rfl h
-  | cons c cs => simp only [Stream.lineOf]; split <;> simp
+The reading loops are modelled with a fuel argument (`content.length + 1` is
+what the file-level functions pass).  Termination of the real `while True` loop
+is the statement that the result does not depend on the fuel once it exceeds
+the length of the unread input — the loop ends by itself, on an empty peek,
+never by running out of fuel — together with the element bounds.
+-/
+namespace Props.C18
+open Cfi Cfi.Text Cfi.Regex
+
+/-! ### register files, text storage -/
+
+/-- the loop stops by itself: any fuel above the input length gives the same result -/
+theorem reg_text_fuel_independent (regs : List RegDef) (s : Stream Char) (f₁ f₂ : Nat)
+    (h₁ : s.rest.length < f₁) (h₂ : s.rest.length < f₂) :
+    readRegLoopText regs f₁ s = readRegLoopText regs f₂ s := by
+  rw [Props.C04.loop_eq_mapM regs f₁ s h₁, Props.C04.loop_eq_mapM regs f₂ s h₂]
+
+/-- at most (exactly) one element per line, plus the placeholder -/
+theorem reg_text_bound (regs : List RegDef) (content : List Char) (es : List RElem)
+    (h : readRegFileText regs content = .ok es) : es.length - 1 ≤ (splitLines content).length := by
+  rw [Props.C04.count regs content es h]; omega
+
+/-! ### block files -/
+
+variable {α : Type} [DecidableEq α]
+
+/-- **every step consumes input**: the number of elements never exceeds the
+number of unread characters / bytes — for every block list and every content,
+in both storages, whatever the fuel -/
+theorem block_bound (nl : α) (binary : Bool) (blocks : List (BlockDef α)) :
+    ∀ (fuel : Nat) (s : Stream α), (readBlockLoop nl binary blocks fuel s).length ≤ s.rest.length := by
+  intro fuel
+  induction fuel with
+  | zero => intro s; simp [readBlockLoop]
+  | succ fuel ih =>
+    intro s
+    by_cases hr : s.rest = []
+    · simp [loop_empty nl binary blocks fuel s hr]
+    · obtain ⟨e, s', heq, hlt, _, _⟩ := loop_step nl binary blocks fuel s hr
+      rw [heq, List.length_cons]
+      have := ih s'
+      omega
+
+/-- file level: elements (without the placeholder) ≤ characters / bytes of the content -/
+theorem block_file_bound (nl : α) (binary : Bool) (blocks : List (BlockDef α)) (x : List α) :
+    (readBlockFile nl binary blocks x).length - 1 ≤ x.length := by
+  have := block_bound nl binary blocks (x.length + 1) ⟨x, 0⟩
+  simpa [readBlockFile, Stream.rest] using this
+
+/-- the block loop stops by itself: the result does not depend on the fuel once
+it exceeds the length of the unread input -/
+theorem block_fuel_independent (nl : α) (binary : Bool) (blocks : List (BlockDef α)) :
+    ∀ (f₁ f₂ : Nat) (s : Stream α), s.rest.length < f₁ → s.rest.length < f₂ →
+      readBlockLoop nl binary blocks f₁ s = readBlockLoop nl binary blocks f₂ s := by
+  intro f₁
+  induction f₁ with
+  | zero => intro f₂ s h; omega
+  | succ f₁ ih =>
+    intro f₂ s h₁ h₂
+    cases f₂ with
+    | zero => omega
+    | succ f₂ =>
+      by_cases hr : s.rest = []
+      · rw [loop_empty nl binary blocks f₁ s hr, loop_empty nl binary blocks f₂ s hr]
+      · obtain ⟨e, s', heq, hlt, _, hall⟩ := loop_step nl binary blocks f₁ s hr
+        rw [heq, hall f₂, ih f₂ s' (by omega) (by omega)]
+
+/-! ### section files -/
+
+theorem leftovers_bound : ∀ (fuel : Nat) (s : Stream Char), (readLeftovers fuel s).length ≤ s.rest.length := by
+  intro fuel
+  induction fuel with
+  | zero => intro s; simp [readLeftovers]
+  | succ fuel ih =>
+    intro s
+    simp only [readLeftovers]
+    split
+    · simp
+    · rename_i hne
+      have hr : s.rest ≠ [] := by
+        intro h; simp [Stream.readline_fst, h, Stream.lineOf] at hne
+      have hacc := accounts_readline '\n' s
+      have hprog := readline_progress '\n' s hr
+      have hl := Props.C12.rest_length_of_accounts hacc hprog
+      have := ih (s.readline '\n').2
+      simp only [List.length_cons]; omega
+
+/-- the declared sections are read unconditionally (one element each), then at
+most one element per remaining character -/
+theorem section_file_bound (secs : List SecDef) (x : List Char) :
+    (readSectionFile secs x).length - 1 ≤ secs.length + x.length := by
+  simp only [readSectionFile, List.length_cons, List.length_append, Nat.add_sub_cancel]
+  have h1 : (readDeclared secs 0 ⟨x, 0⟩).1.length = secs.length := by
+    induction secs generalizing x with
+    | nil => rfl
+    | cons d ds ih => exact (by
+        have : ∀ (ss : List SecDef) (i : Nat) (s : Stream Char), (readDeclared ss i s).1.length = ss.length := by
+          intro ss; induction ss with
+          | nil => intro i s; rfl
+          | cons d ds ih => intro i s; simp [readDeclared, ih]
+        exact this _ _ _)
+  have h2 := leftovers_bound (x.length + 1) (readDeclared secs 0 ⟨x, 0⟩).2
+  have h3 : (readDeclared secs 0 ⟨x, 0⟩).2.rest.length ≤ x.length := by
+    have hacc : ∀ (ss : List SecDef) (i : Nat) (s : Stream Char), (readDeclared ss i s).2.rest.length ≤ s.rest.length := by
+      intro ss; induction ss with
+      | nil => intro i s; simp [readDeclared]
+      | cons d ds ih =>
+        intro i s
+        simp only [readDeclared]
+        have h := accounts_readSection d s
+        have := congrArg List.length h.rest
+        simp at this
+        have := ih (i + 1) (readSection d s).2
+        omega
+    simpa [Stream.rest] using hacc secs 0 ⟨x, 0⟩
+  omega
+
+/-- non-vacuity: garbage that matches nothing still terminates with one element per line -/
+example : (readRegFileText [⟨"AB".toList, 2, [], .none⟩] "zz\n\n q".toList).toOption.map List.length = some 4 := by
+  decide
 
 end Props.C18
